@@ -8,6 +8,7 @@
 #include <fcntl.h>
 #include <sys/stat.h>
 #include <stdarg.h>
+#include <sys/time.h>
 
 Counters g_cnt;
 int g_trace = 0;
@@ -15,6 +16,7 @@ Arena g_arena;
 __thread GuardCtx *t_guard = nullptr;
 segv_hook_t g_segv_hook = nullptr;
 LibInfo g_lib;
+volatile uint64_t g_call_seq = 0;
 
 std::string strf(const char *fmt, ...)
 {
@@ -182,8 +184,8 @@ bool Arena::classify(void *addr, FaultInfo &fi) const
 
 const char *fault_class_name(int c)
 {
-        static const char *n[] = { "none", "guard_after", "guard_before", "released", "slack", "libdata", "stray", "abort", "ud" };
-        return c >= 0 && c <= FC_UD ? n[c] : "?";
+        static const char *n[] = { "none", "guard_after", "guard_before", "released", "slack", "libdata", "stray", "abort", "ud", "hang" };
+        return c >= 0 && c <= FC_HANG ? n[c] : "?";
 }
 
 // ---------------------------------------------------------------- signal handling
@@ -231,6 +233,33 @@ static void on_fault(int sig, siginfo_t *si, void *uc)
         _exit(70);
 }
 
+// watchdog: a recurring virtual-time tick; a guarded library call that is still the same call after three ticks
+// (>= 4 s of user CPU time inside one call that normally takes microseconds) is declared hung and abandoned.
+static void on_tick(int, siginfo_t *, void *uc)
+{
+        static uint64_t last_seq = 0;
+        static int same = 0;
+        GuardCtx *g = t_guard;
+        if (!g || !g->armed) {
+                same = 0;
+                return;
+        }
+        if (g_call_seq == last_seq)
+                same++;
+        else {
+                last_seq = g_call_seq;
+                same = 0;
+        }
+        if (same >= 3) {
+                same = 0;
+                g->fi = FaultInfo();
+                g->fi.cls = FC_HANG;
+                fill_sym(g->fi, uc);
+                g->armed = 0;
+                siglongjmp(g->jb, 1);
+        }
+}
+
 void mem_install_handlers()
 {
         static uint8_t altstack[1 << 16];
@@ -247,6 +276,13 @@ void mem_install_handlers()
         sigaction(SIGBUS, &sa, 0);
         sigaction(SIGABRT, &sa, 0);
         sigaction(SIGILL, &sa, 0);
+        sa.sa_sigaction = on_tick;
+        sigaction(SIGVTALRM, &sa, 0);
+        struct itimerval it;
+        it.it_interval.tv_sec = 1;
+        it.it_interval.tv_usec = 500000;
+        it.it_value = it.it_interval;
+        setitimer(ITIMER_VIRTUAL, &it, 0);
 }
 
 // ---------------------------------------------------------------- library image
